@@ -73,6 +73,15 @@ class Injector:
         raise KillSim()
 
 
+def fail(inj, kind: str, err: OSError):
+    """the injected failure: a simulated process kill, an interrupt (Ctrl-C arriving during the operation) or an I/O error"""
+    if kind == "kill":
+        inj.kill()
+    if kind == "int":
+        raise KeyboardInterrupt()
+    raise err
+
+
 class BufFile:
     """Write-mode file with explicit buffering: data reaches the descriptor at close (flush) time."""
 
@@ -90,9 +99,7 @@ class BufFile:
             self.buf += s
             os.write(self.fd, self.buf[:part].encode())
             self.buf = ""
-            if kind == "kill":
-                self.inj.kill()
-            raise OSError(28, "injected: no space left on device")
+            fail(self.inj, kind, OSError(28, "injected: no space left on device"))
         self.buf += s
         return len(s)
 
@@ -108,9 +115,7 @@ class BufFile:
             kind, part = f
             os.write(self.fd, self.buf[:part].encode())
             os.close(self.fd)
-            if kind == "kill":
-                self.inj.kill()
-            raise OSError(5, "injected: I/O error on flush")
+            fail(self.inj, kind, OSError(5, "injected: I/O error on flush"))
         os.write(self.fd, self.buf.encode())
         os.close(self.fd)
 
@@ -135,9 +140,7 @@ def instrumented(inj: Injector):
             return _real_open(file, mode, *a, **kw)
         f = inj.point("open")
         if f:
-            if f[0] == "kill":
-                inj.kill()
-            raise OSError(13, "injected: permission denied")
+            fail(inj, f[0], OSError(13, "injected: permission denied"))
         if "a" in mode:
             # append mode: create if missing, keep content (not buffered specially)
             return _real_open(file, mode, *a, **kw)
@@ -153,7 +156,7 @@ def instrumented(inj: Injector):
                 if part:
                     _real_replace(src, dst, **kw)
                 inj.kill()
-            raise OSError(18, "injected: replace failed")
+            fail(inj, kind, OSError(18, "injected: replace failed"))
         return _real_replace(src, dst, **kw)
 
     def fake_unlink(p, **kw):
@@ -161,9 +164,7 @@ def instrumented(inj: Injector):
             return _real_unlink(p, **kw)
         f = inj.point("unlink")
         if f:
-            if f[0] == "kill":
-                inj.kill()
-            raise OSError(1, "injected: unlink failed")
+            fail(inj, f[0], OSError(1, "injected: unlink failed"))
         return _real_unlink(p, **kw)
 
     import pegen.build as B
@@ -269,6 +270,9 @@ def run(chk: common.Check, tier: str):
                     for kind in ("exn", "kill"):
                         for part in sorted({0, n // 2, n} if k in (1, 2) else ({0, 1} if (k == 3 and kind == "kill") else {0})):
                             fault_sets.append({k: (kind, part)})
+                # an interrupt (Ctrl-C) arriving during each operation
+                for k in range(4):
+                    fault_sets.append({k: ("int", n // 2 if k in (1, 2) else 0)})
                 # failure followed by a failing cleanup
                 for k, ku in ((0, 1), (1, 3), (2, 3), (3, 4)):
                     for kind2 in ("exn", "kill"):
@@ -280,22 +284,25 @@ def run(chk: common.Check, tier: str):
             for entry in ("api", "cli"):
                 # the command line refuses what its validator rejects: for it such a grammar is a failing generation
                 ref = None if (entry == "cli" and not valid) else ref_api
-                for old in (None, "# OLD PARSER CONTENT\n" * 3):
-                    for faults in fault_sets:
+                for old, linked in ((None, False), ("# OLD PARSER CONTENT\n" * 3, False), ("# OLD PARSER BEHIND A LINK\n" * 3, True)):
+                    for faults in (fault_sets if not linked else fault_sets[:1] + fault_sets[1::2]):
                         out_path = os.path.join(sandbox, "out.py")
-                        for p in (out_path, out_path + ".tmp"):
+                        real_path = os.path.join(sandbox, "real_out.py")
+                        for p in (out_path, out_path + ".tmp", real_path):
                             with contextlib.suppress(FileNotFoundError):
                                 _real_unlink(p)
                         if old is not None:
-                            with _real_open(out_path, "w") as f:
+                            with _real_open(real_path if linked else out_path, "w") as f:
                                 f.write(old)
+                            if linked:      # the output path is a symbolic link to an existing parser
+                                os.symlink(real_path, out_path)
                         inj = Injector(dict(faults), sandbox)
                         res = run_entry(entry, gpath, out_path, inj)
                         after, tmp_after = read_or_none(out_path), read_or_none(out_path + ".tmp")
-                        leftovers = sorted(x for x in os.listdir(sandbox) if not x.endswith(".gram") and x != "out.py")
+                        leftovers = sorted(x for x in os.listdir(sandbox) if not x.endswith(".gram") and x not in ("out.py", "real_out.py"))
                         chk.count()
                         chk.bump(f"{entry}/{res}")
-                        desc = {"entry": entry, "grammar": gname, "old": "present" if old else "absent",
+                        desc = {"entry": entry, "grammar": gname, "old": ("symlink to a parser" if linked else "present") if old else "absent",
                                 "faults": {str(k): v for k, v in faults.items()}, "outcome": res, "ops": inj.trace,
                                 "target_after": ("old" if after == old else "complete" if after == ref and ref is not None
                                                  else "absent" if after is None else f"DAMAGED({len(after)} chars)")}
@@ -315,7 +322,7 @@ def run(chk: common.Check, tier: str):
                         # ---- model case
                         gr = f"(GenOK {cstr(ref)})" if ref is not None else "GenFail"
                         fl = clist(sorted(faults.items()),
-                                   lambda kv: f"({cnat(kv[0])}, {'Exn' if kv[1][0] == 'exn' else 'Kill'}, {cnat(kv[1][1])})")
+                                   lambda kv: f"({cnat(kv[0])}, {'Kill' if kv[1][0] == 'kill' else 'Exn'}, {cnat(kv[1][1])})")
                         oc = {"done": "Done", "raised": "Raised", "killed": "Killed"}[res]
                         tr = clist([OPNAME.get(o, "OOpen") for o in inj.trace])
                         # unknown op names cannot be represented: mark the case as failing
